@@ -3,6 +3,7 @@
 From Coq Require Import List NArith Bool.
 From Storage Require Import Base.Bytes Lang.Unescape Lang.UnescapeProofs.
 From Storage Require Import Lang.Tokens Lang.BoolSurface Lang.WordOps Lang.StrCompare Lang.StrCompareProofs.
+From Storage Require Import Lang.StrFilter Lang.StrFilterProofs.
 Import ListNotations.
 Open Scope N_scope.
 
@@ -107,3 +108,32 @@ Theorem set_comparison_exact : forall (op : sop) (s : str) (elems : list str),
   (ascending elems = true -> any_of_eq_seek (literal_full s) elems = existsb (fun e => str_eqb e s) elems).
 Proof. exact set_comparison_exact_lemma. Qed.
 Print Assumptions set_comparison_exact.
+
+(* ---- filters with several comparisons (Lang/StrFilter.v): literal occurrences do not influence each other ---- *)
+
+(* compositionality: a filter - any number of comparisons over plain fields, string sets and inside sub-queries,
+   joined by and / or / not, parsed by one listener whose constant nodes have an identity - evaluates to the
+   boolean combination of its comparisons, each evaluated as if it were the only one ([atom_pred] is the
+   single-comparison evaluation of Lang/StrCompare.v).  For all token texts, repeated or not *)
+Theorem filter_query_compositional : forall (f : filter atom) (r : row),
+  filter_query f r = eval_filter atom_pred atom_target f r.
+Proof. exact filter_query_compositional_lemma. Qed.
+Print Assumptions filter_query_compositional.
+
+(* every literal occurrence denotes its own string: if each comparison of the filter text [f] spells the
+   comparison with strings at the same place of [vf] (operator token in any spelling, every literal token with
+   that string as value), the filter selects exactly the rows that the comparisons with the strings themselves
+   select - whatever other literals (equal, case variants, prefixes) occur in the filter *)
+Theorem filter_literals_independent : forall (vf : filter vatom) (f : filter atom) (r : row),
+  filter_rel spells vf f -> ascending (r_tags r) = true ->
+  filter_query f r = spec_filter vf r.
+Proof. exact filter_literals_independent_lemma. Qed.
+Print Assumptions filter_literals_independent.
+
+(* in particular for the filter written with either escaper *)
+Theorem written_filter_exact : forall (vf : filter vatom) (r : row),
+  ascending (r_tags r) = true ->
+  filter_query (fmap (write_atom literal_full) vf) r = spec_filter vf r /\
+  filter_query (fmap (write_atom literal_min) vf) r = spec_filter vf r.
+Proof. exact written_filter_exact_lemma. Qed.
+Print Assumptions written_filter_exact.
